@@ -13,14 +13,27 @@ STR = ['SimpleInv', 'SimpleInvPiv', 'BlockLU', 'BlockLUPiv', 'SimpleLU', 'Simple
 
 
 class Solve(Lin):
-    def __init__(s, T, n, strat, ncols=0, lazy=False):
+    def __init__(s, T, n, strat, ncols=0, lazy=False, form='tt', rot=False):
         a = Buf('a', T, n * n); m = max(ncols, 1); b = Buf('b', T, n * m); x = Buf('x', T, n * m, 'out')
         tt = f'Tensor<{T},{n},{n}>'; bt = f'Tensor<{T},{n}>' if ncols == 0 else f'Tensor<{T},{n},{ncols}>'
-        call = f'solve<SolveCompType::{strat}>(A,B)' if not lazy else f'{bt}(solve(A,B))'
+        # form: which operands are expressions (t = tensor, e = expression) - the four solve() overloads
+        ea = 'A' if form[0] == 't' else f'(A*{T}(1))'; eb = 'B' if form[1] == 't' else f'(B*{T}(1))'
+        call = f'solve<SolveCompType::{strat}>({ea},{eb})' if not lazy else f'{bt}(solve(A,B))'
         k = f'{tt} A(a); {bt} B(b); {bt} X = {call}; ' + copy_out('X', 'x', n * m)
-        Lin.__init__(s, f'solve_{SHORT[T]}_{n}_{strat}_{ncols}{"_lazy" if lazy else ""}', T, [a, b, x], k, f'{call} {tt}, rhs {bt}')
+        Lin.__init__(s, f'solve_{SHORT[T]}_{n}_{strat}_{ncols}{"_lazy" if lazy else ""}{"" if form == "tt" else "_" + form}{"_rot" if rot else ""}', T, [a, b, x], k, f'{call} {tt}, rhs {bt}')
         s.n = n; s.m = m
         if 'Piv' in strat: s.max_paths = 80
+        if rot:
+            # A = upper-bidiagonal U with its first and last rows exchanged (and U[0][1] = 0): the static column-max pre-pivot
+            # (unary_piv_op.h) has exactly one non-zero candidate per column, so the pivot path is forced and yields U, on which
+            # every pivoted strategy is defined; a strategy that does not pivot meets a singular leading block for all such A
+            nzd = []
+            for r in range(n):
+                ur = {0: n - 1, n - 1: 0}.get(r, r)
+                for j in range(n):
+                    if j == ur: nzd.append(r * n + j)
+                    elif not (j == ur + 1 and ur != 0): a.fixed[r * n + j] = 0
+            s.pre_fn = lambda V: [V.el('a', i) != 0 for i in nzd]
 
     def path_obligations(s, mod, kp, stats):
         if kp.status != 'ok': return [Obl('status', z3.BoolVal(False), kp.pc, note='path ended with ' + kp.status)]
@@ -34,6 +47,7 @@ class Solve(Lin):
     def native_check(s, inp, rk, rr):
         mm = s.nat_mats(inp, rk); n, m = s.n, s.m; A = mm['a'].reshape(n, n); B = mm['b'].reshape(n, m); X = mm['x'].reshape(n, m)
         if not np.all(np.isfinite(A)) or np.linalg.cond(A) > 1e4: return None
+        if 'Piv' in s.id and not np.all(np.isfinite(X)): return 'x is not finite for a well-conditioned A'
         r = np.abs(A @ X - B).max(); sc = max(1.0, np.abs(B).max(), (np.abs(A) @ np.abs(X)).max())
         return f'|A*x-b| = {r:.3g}' if r > s.tol() * 100 * sc else None
 
@@ -51,6 +65,12 @@ def cases(tier, cfg, seed):
         for n in (() if tier == 'quick' else (5, 6, 7, 8)):
             out.append(Solve(T, n, 'SimpleLU')); out.append(Solve(T, n, 'BlockLU'))
         if tier != 'quick': out.append(Solve(T, 5, 'SimpleInv')); out.append(Solve(T, 6, 'SimpleLU', 2))
+        # the four operand forms (tensor / expression) must forward the requested strategy; n = 5 is past the closed-form inverse
+        for form in ('et', 'te', 'ee'):
+            out.append(Solve(T, 2, 'SimpleLUPiv', 0, form=form))
+            for st in (('SimpleLUPiv', 'SimpleInvPiv') if tier == 'quick' else ('SimpleLUPiv', 'BlockLUPiv', 'SimpleInvPiv')):
+                out.append(Solve(T, 5, st, 0, form=form, rot=True))
+        out.append(Solve(T, 5, 'SimpleLUPiv', 2, form='et', rot=True)); out.append(Solve(T, 5, 'SimpleLUPiv', 0, rot=True))
     if tier == 'quick': out.append(Solve('float', 3, 'SimpleLU')); out.append(Solve('float', 4, 'SimpleInv'))
     return out
 
